@@ -7,6 +7,9 @@ package main
 //     (one per peer connection), so OnMsg runs concurrently with itself and with the KeyGen goroutine; a replayer
 //     goroutine per party re-delivers earlier messages (duplicates, out of phase) and, at the very start, a
 //     well-formed key attributed to a peer (an early reveal from a fast or misbehaving participant).
+//  1b. box: the silent-mode buffer alone (msg.Box with its real clock): four dispatcher goroutines deliver traffic of four
+//     senders on a moving window of topics while two goroutines make the first Send on those topics (which drains what
+//     was buffered and releases the per-sender accounting) and the garbage collector runs every few hundred microseconds.
 //  2. stack: real threshold.Schemes (loud and silent) on a network with one dispatcher goroutine per link; KeyGen,
 //     then two signing sessions at once per party, duplicates of earlier traffic re-injected concurrently.
 //
@@ -22,6 +25,7 @@ import (
 	"time"
 
 	"github.com/IBM/TSS/mpc/bls"
+	"github.com/IBM/TSS/msg"
 	"github.com/IBM/TSS/threshold"
 	tss "github.com/IBM/TSS/types"
 
@@ -47,6 +51,9 @@ func runRace(r *prng.R, s *out.Sink, tier string) {
 			n := 3 + r.Intn(3)
 			raceBackends(r, s, kind, n, 2+r.Intn(n-1), 1)
 		}
+	}
+	for i := 0; i < rounds; i++ {
+		raceBox(r, s)
 	}
 	threshold.SyncInterval = 3 * time.Millisecond
 	for i := 0; i < rounds; i++ {
@@ -239,6 +246,69 @@ func (n *cNet) stop() {
 	}
 	n.mu.Unlock()
 	n.wg.Wait()
+}
+
+type countHandler struct{ n *int64 }
+
+func (h countHandler) HandleMessage(*tss.IncMessage) { atomic.AddInt64(h.n, 1) }
+
+// raceBox: concurrent receive calls, first sends and garbage collections on one msg.Box
+func raceBox(r *prng.R, s *out.Sink) {
+	var handled, forwarded int64
+	box := &msg.Box{
+		Logger:                    nopLogger{},
+		MaxInFlightTopicsBySender: 6,
+		GCSweep:                   300 * time.Microsecond,
+		GCExpire:                  3 * time.Millisecond,
+		NewTicker:                 time.NewTicker,
+		MessageHandler:            countHandler{&handled},
+		ForwardSend:               func(uint8, []byte, []byte, ...tss.UniversalID) { atomic.AddInt64(&forwarded, 1) },
+	}
+	const topics = 60
+	var wg sync.WaitGroup
+	var front int64 // topics below `front` have been (or are being) started
+	for src := uint16(1); src <= 4; src++ {
+		src := src
+		rr := r.Fork()
+		wg.Add(1)
+		go func() {
+			defer wg.Done()
+			for k := 0; k < 600; k++ {
+				f := int(atomic.LoadInt64(&front))
+				t := f - 2 + rr.Intn(6) // around the front: some started, some being started, some not yet
+				if t < 0 {
+					t = 0
+				}
+				box.HandleMessage(&tss.IncMessage{Data: []byte{byte(k)}, Source: src, MsgType: uint8(tss.MsgTypeMPC), Topic: topicBytes(t % topics)})
+				if rr.Intn(8) == 0 {
+					runtime.Gosched()
+				}
+			}
+		}()
+	}
+	for g := 0; g < 2; g++ {
+		rr := r.Fork()
+		wg.Add(1)
+		go func() {
+			defer wg.Done()
+			for {
+				t := int(atomic.AddInt64(&front, 1)) - 1
+				if t >= topics {
+					return
+				}
+				box.Send(uint8(tss.MsgTypeMPC), topicBytes(t), []byte{1}, 1, 2)
+				time.Sleep(time.Duration(20+rr.Intn(120)) * time.Microsecond)
+			}
+		}()
+	}
+	wg.Wait()
+	box.Stop()
+	s.N++
+	s.Count("box/run")
+	s.Distinct[fmt.Sprintf("box|%d|%d", handled, r.Intn(1<<30))] = struct{}{}
+	if forwarded != topics {
+		s.Violate("C14", fmt.Sprintf("race workload: %d first sends were forwarded, %d were made", forwarded, topics), "")
+	}
 }
 
 func raceStack(r *prng.R, s *out.Sink, mode string, n, t int) {
